@@ -575,6 +575,12 @@ def run_effects(q, pid, rc, scratch, logdir, known, out):
     p = subprocess.run(["cargo", "+nightly", "rustc", "--offline", "--lib", "--features", "memmap", "--", "-Zunpretty=mir", "-C", "debug-assertions=off",
                         "-C", "overflow-checks=on"], cwd=crate, env=env, stdout=subprocess.PIPE, stderr=subprocess.PIPE, text=True)
     shutil.rmtree(env["CARGO_TARGET_DIR"], ignore_errors=True)
+    eff_assume = ("effects mode: the memmap-feature MIR of the named functions is executed symbolically on all paths; every callee outside the crate is an opaque call "
+                  "(arbitrary result of its type, recorded with its arguments), so the kernel / memmap2 / std::fs behaviour is trusted as documented; obligations are "
+                  "decided per path by z3 (cvc5 re-decides them in the thorough tier); a failed obligation is reported only after a native experiment on real files shows the "
+                  "loss (else exit 2), and the same experiment cross-checks a pass")
+    if eff_assume not in out["assumptions"]:
+        out["assumptions"].append(eff_assume)
     sample = {"engine": "M", "query": q.name, "kind": "effects", "bounds": q.bounds()}
     out["evaluations"] += 1
     if p.returncode != 0 or "fn " not in p.stdout:
